@@ -519,7 +519,7 @@ impl Simulation for C18Sim {
   }
   fn tier(&self, name: &str) -> TierCfg {
     if name == "thorough" {
-      TierCfg { name: "thorough".into(), max_runs: 15_000, secs: 900 }
+      TierCfg { name: "thorough".into(), max_runs: 36_000, secs: 900 }
     } else {
       TierCfg { name: "quick".into(), max_runs: 320, secs: 150 }
     }
